@@ -334,6 +334,15 @@ class CInterp:
             return 0
         if name == "exit":
             raise CAbort()
+        if name in ("malloc", "calloc"):
+            # fresh allocation: arbitrary contents (malloc) or all zero (calloc); the element sort is fixed by the cast
+            self.alloc_counter = getattr(self, "alloc_counter", 0) + 1
+            return ("alloc", name, a, self.alloc_counter)
+        if name == "free":
+            p = a[0]
+            if isinstance(p, Ptr) and p.region is not None:
+                p.region.freed = True
+            return 0
         if name in ("isnan", "__isnanf", "__builtin_isnan"):
             return False  # reals: no NaN unless a contract says so
         return None
@@ -385,6 +394,14 @@ class CInterp:
             if d.get("kind") != "VarDecl":
                 continue
             qt = d.get("type", {}).get("qualType", "")
+            if d.get("storageClass") == "static":
+                # state that persists across calls: needs a contract-supplied invariant for the value on entry
+                st = getattr(self, "static_state", {})
+                if d.get("name") not in st:
+                    raise Unsupported(f"static local variable `{d.get('name')}` (state persisting across calls; no invariant supplied by the contract)")
+                env.setdefault("#names", {})[d.get("name")] = d["id"]
+                env[d["id"]] = st[d.get("name")]
+                continue
             env.setdefault("#names", {})[d.get("name")] = d["id"]
             init = d.get("inner", [])
             init = [c for c in init if c.get("kind") not in (None,)]
@@ -719,10 +736,29 @@ class CInterp:
     def e_CStyleCastExpr(self, n, env):
         x = self.rv(self.expr(n["inner"][0], env))
         qt = n.get("type", {}).get("qualType", "")
+        if isinstance(x, tuple) and x and x[0] == "alloc":
+            sort = "real" if ("float" in qt or "double" in qt) else "int"
+            nm = core.fresh_name(f"{x[1]}#{x[3]}")
+            if x[1] == "calloc":
+                r = Region(nm, sort, init=z3.K(z3.IntSort(), z3.RealVal(0) if sort == "real" else z3.IntVal(0)))
+            else:
+                r = Region(nm, sort)
+            r.alloc = (x[1], x[2])
+            self.allocs = getattr(self, "allocs", [])
+            self.allocs.append(r)
+            return Ptr(r, 0)
         return self.coerce(x, qt) if qt in ("int", "float", "double") else x
 
     e_CXXFunctionalCastExpr = e_CStyleCastExpr
     e_CXXStaticCastExpr = e_CStyleCastExpr
+
+    def e_UnaryExprOrTypeTraitExpr(self, n, env):
+        if n.get("name") == "sizeof":
+            qt = (n.get("argType") or {}).get("qualType", "")
+            sizes = {"float": 4, "int": 4, "double": 8, "char": 1, "unsigned int": 4, "long": 8, "size_t": 8}
+            if qt in sizes:
+                return sizes[qt]
+        raise Unsupported(f"sizeof/alignof of {n.get('argType')}")
 
     def e_InitListExpr(self, n, env):
         return [self.rv(self.expr(c, env)) for c in n.get("inner", [])]
